@@ -2,6 +2,7 @@
 from contracts import access_c as A
 from contracts import algebra_c as AL
 from . import common as K
+from . import C04
 
 LEVEL = 'other'
 EXPLANATION = ('Proved for key tuples of any length/order and any coefficient values: __getattr__ with any spelling ((-1)^parity * '
@@ -24,6 +25,7 @@ def build(H, tier, seed):
     A.vc_getattr(H)
     A.vc_contains(H)
     A.vc_grade(H)
+    A.vc_grade_layouts(H)
     A.vc_trivial_accessors(H)
     A.vc_new(H)
     A.vc_new_graded_reordered(H)
@@ -43,4 +45,4 @@ def standins(tier, seed):
         cfgs += [dict(p=4), dict(p=3, q=1), dict(name='STAP'), dict(p=3, q=0, r=1, graded=True),
                  dict(p=3, basis=['e', 'e1', 'e2', 'e3', 'e12', 'e31', 'e23', 'e123'])]
     return [{'name': f'roundtrip#{i}', 'bound': f'{n} seeded key tuples per configuration x 7 construction forms x all blades (<=16 sampled above) with a random spelling each x grade/asfullmv/map/filter; inconsistent inputs',
-             'job': {'kind': 'roundtrip', 'module': 'standins.jobs4', 'configs': [dict(c, random=n)], 'seed': seed + i}} for i, c in enumerate(cfgs)]
+             'job': {'kind': 'roundtrip', 'module': 'standins.jobs4', 'configs': [dict(c, random=n)], 'seed': seed + i}} for i, c in enumerate(cfgs)] + C04._gradesel_jobs(tier, seed)
